@@ -6,6 +6,7 @@ From PipeIn Require Import PropsC11.
 
 Lemma cl_pipe_in_stops_on_none : fact_pipe_in_stops_on_none = true. Proof. reflexivity. Qed.
 Lemma cl_pipe_in_pending_returns_true : fact_pipe_in_pending_returns_true = true. Proof. reflexivity. Qed.
+Lemma cl_pipe_in_unbounded_loop : fact_pipe_in_unbounded_loop = true. Proof. reflexivity. Qed.
 Lemma cl_pipe_in_weak_only : fact_pipe_in_weak_only = true. Proof. reflexivity. Qed.
 Lemma cl_pipe_context_weak_upgrade : fact_pipe_context_weak_upgrade = true. Proof. reflexivity. Qed.
 Lemma cl_pipe_context_disposes_on_chute : fact_pipe_context_disposes_on_chute = true. Proof. reflexivity. Qed.
